@@ -28,6 +28,9 @@ GATES = [
     (f"<{HJ}PhysicalHashJoin as glaredb_core::execution::operators::ExecuteOperator>::poll_execute", "JoinHashTable::probe", ("fields", {"scan_ready"})),
     (f"<{HJ}PhysicalHashJoin as glaredb_core::execution::operators::ExecuteOperator>::poll_execute", "HashTablePartitionScanState::scan_next", ("fields", {"scan_ready"})),
     (f"<{HJ}PhysicalHashJoin as glaredb_core::execution::operators::ExecuteOperator>::poll_execute", "HashTablePartitionDrainState::drain_next", ("fields", {"drain_ready"})),
+    # drain_ready alone is not enough: with an empty probe side every prober finalizes (drain_ready) while build partitions
+    # still hold get_mut() on the shared row collection; the drain reads it, so it also needs the build-complete flag
+    (f"<{HJ}PhysicalHashJoin as glaredb_core::execution::operators::ExecuteOperator>::poll_execute", "HashTablePartitionDrainState::drain_next", ("fields", {"scan_ready"})),
 ]
 
 
@@ -130,8 +133,45 @@ def _true_edges_for_fields(fn, names):
     return out
 
 
+def _latch_edges(fn, edges):
+    """A per-partition latch (`if !*ready { <gate>; *ready = true }`) carries the gate to later polls: the true-edges of a
+    switch on `*L` count as gate edges when every store of `true` through L is itself behind the gate."""
+    out = set(edges)
+    changed = True
+    while changed:
+        changed = False
+        ungated = fn.reach(0, avoid_edges=out)
+        for b in range(fn.n):
+            t = fn.term(b)
+            if t[0] != "switch" or t[4] != "bool" or t[1][0] not in ("c", "m") or t[1][1][1]:
+                continue
+            cur, inv, L = t[1][1][0], False, None
+            for _ in range(4):
+                ds = [d for d in fn.defs.get(cur, []) if d[0] == "a"]
+                if len(ds) != 1:
+                    break
+                rv = ds[0][3]
+                if rv[0] == "un" and rv[1] == "Not":
+                    inv, cur = not inv, rv[2][1][0]
+                    continue
+                if rv[0] == "use" and rv[1][0] in ("c", "m") and rv[1][1][1] == ["*"]:
+                    L = rv[1][1][0]
+                break
+            if L is None:
+                continue
+            stores = [(sb, rv) for sb, i, pl, rv, ln in fn.assigns() if pl[0] == L and pl[1] == ["*"]]
+            trues = [sb for sb, rv in stores if not (rv[0] == "use" and rv[1][0] == "k" and rv[1][1].get("v") in (False, 0, "false"))]
+            if not trues or any(sb in ungated for sb in trues):
+                continue
+            for v, tgt in switch_edges(t):
+                if (v != 0) != inv and (b, tgt) not in out:
+                    out.add((b, tgt))
+                    changed = True
+    return out
+
+
 def rule_phase(facts):
-    r = RuleResult("C16-PHASE", "phase-restricted hash table operations are reachable only through their gate", floor=5)
+    r = RuleResult("C16-PHASE", "phase-restricted hash table operations are reachable only through their gate", floor=6)
     for fsuf, callee, gate in GATES:
         rec = facts.fn(fsuf)
         if rec is None:
@@ -144,7 +184,7 @@ def rule_phase(facts):
             r.missing_anchor(f"call of {callee} in {fsuf.rsplit('::', 1)[-1]}")
             continue
         if gate[0] == "fields":
-            edges = _true_edges_for_fields(fn, gate[1])
+            edges = _latch_edges(fn, _true_edges_for_fields(fn, gate[1]))
         else:
             edges = set()
             for b in range(fn.n):
